@@ -34,6 +34,7 @@ def body_nodes(fn_node):
             if isinstance(c, (ast.FunctionDef, ast.AsyncFunctionDef, ast.ClassDef)):
                 continue
             todo.append(c)
+    out.sort(key=lambda n: (getattr(n, 'lineno', 0), getattr(n, 'col_offset', 0)))
     return out
 
 
@@ -146,6 +147,11 @@ def canon(e):
 def N(e):
     """canonical text of an expression."""
     return U(canon(e))
+
+
+def NS(text):
+    """canonical text of an expression given as source"""
+    return N(ast.parse(text, mode='eval').body)
 
 
 def conjuncts(t):
